@@ -316,14 +316,31 @@ class QasmModule(ABC):  # pylint: disable=too-many-instance-attributes
             del self._qubit_depths[(reg_name, idx)]
 
         # update the operations that use the qubits
-        for operation in self._unrolled_ast.statements:
-            if isinstance(operation, QUANTUM_STATEMENTS):
-                bit_list = Qasm3Analyzer.get_op_bit_list(operation)
-                for bit in bit_list:
+        for bit_reg_name, index_literal in self._qubit_index_literals():
+            if bit_reg_name == reg_name:
+                index_literal.value = idx_map[index_literal.value]
+
+    def _qubit_index_literals(self):
+        """Collect (register name, index literal) for every distinct index literal of the qubit
+        operands of the unrolled quantum operations, including the operations nested in the
+        blocks of branching statements. A literal object shared between several operations
+        (the gates emitted for one decomposed gate share their operands) is reported once."""
+        literals = []
+        seen = set()
+        pending = list(self._unrolled_ast.statements)
+        while pending:
+            stmt = pending.pop()
+            if isinstance(stmt, qasm3_ast.BranchingStatement):
+                pending.extend(stmt.if_block)
+                pending.extend(stmt.else_block)
+            elif isinstance(stmt, QUANTUM_STATEMENTS):
+                for bit in Qasm3Analyzer.get_op_bit_list(stmt):
                     assert isinstance(bit, qasm3_ast.IndexedIdentifier)
-                    if bit.name.name == reg_name:
-                        old_idx = bit.indices[0][0].value  # type: ignore[union-attr,index]
-                        bit.indices[0][0].value = idx_map[old_idx]  # type: ignore[union-attr,index]
+                    index_literal = bit.indices[0][0]  # type: ignore[index]
+                    if id(index_literal) not in seen:
+                        seen.add(id(index_literal))
+                        literals.append((bit.name.name, index_literal))
+        return literals
 
     def _get_idle_qubit_indices(self) -> dict[str, list[int]]:
         """Get the indices of the idle qubits in the module
@@ -468,29 +485,10 @@ class QasmModule(ABC):  # pylint: disable=too-many-instance-attributes
         #    the depth maps here
 
         # 2. replace each qubit index in the Quantum Operations with the new index
-        for operation in qasm_module._unrolled_ast.statements:
-            if isinstance(operation, QUANTUM_STATEMENTS):
-                bit_list = Qasm3Analyzer.get_op_bit_list(operation)
-                for bit in bit_list:
-                    curr_reg_name = bit.name.name
-                    curr_reg_idx = bit.indices[0][0].value
-                    new_reg_idx = new_qubit_mappings[curr_reg_name][curr_reg_idx]
-
-                    # make the idx -ve so that this is not touched
-                    # while updating the same index later
-
-                    # idx -> -1 * idx - 1 as we also have to look at index 0
-                    # which will remain 0 if we just multiply by -1
-                    bit.indices[0][0].value = -1 * new_reg_idx - 1
-
-        # remove the -ve marker
-        for operation in qasm_module._unrolled_ast.statements:
-            if isinstance(operation, QUANTUM_STATEMENTS):
-                bit_list = Qasm3Analyzer.get_op_bit_list(operation)
-                for bit in bit_list:
-                    if bit.indices[0][0].value < 0:
-                        bit.indices[0][0].value += 1
-                        bit.indices[0][0].value *= -1
+        #    (operations nested in conditional blocks included; an index literal shared
+        #    between several emitted operations is rewritten exactly once)
+        for reg_name, index_literal in qasm_module._qubit_index_literals():
+            index_literal.value = new_qubit_mappings[reg_name][index_literal.value]
 
         # 3. update the original AST with the unrolled AST
         qasm_module._statements = qasm_module._unrolled_ast.statements
